@@ -4,7 +4,7 @@ VARIABLES hist, bad
 GInit == Init /\ hist = <<>> /\ bad = FALSE
 GNext == /\ Next
          /\ hist' = Append(hist, [a |-> act'.a, cls |-> act'.cls, remote |-> act'.remote, exp |-> out'])
-         /\ bad' = (bad \/ ~TypeOK' \/ ~NoPanic' \/ ~NoValueWithoutPr' \/ ~NoEventsWithoutEv' \/ ("pw" \notin Perms /\ cbRemote' # cbRemote))
+         /\ bad' = (bad \/ ~TypeOK' \/ ~NoPanic' \/ ~NoValueWithoutPr' \/ ~NoEventsWithoutEv' \/ (act'.a = "Update" /\ "pw" \notin Perms /\ cbRemote' # cbRemote))
 MaxLen == 2
 WordBound == Len(hist) <= MaxLen
 EmitWord == Len(hist) = MaxLen => PrintT(<<"BEH", ToJson(hist)>>)
